@@ -34,6 +34,8 @@ case "$pkgline" in
   main) sub=$(grep -m1 -oE 'cmd/(regctl|regsync|regbot)' "$demo" | head -1) ;;
   *) sub=$(grep -m1 -oE '(scheme|internal|types|cmd|pkg|mod)(/[a-z0-9]+)+' "$demo" | head -1) ;;
 esac
+hdr=$(grep -m1 -oE "place in: *[^ ]+" "$demo" | sed -E "s/place in: *//; s#^\./##; s#/$##")
+[ -n "$hdr" ] && [ -d "$hdr" ] && sub=$hdr
 [ -n "${DEMO_DIR:-}" ] && sub=$DEMO_DIR
 [ -z "$sub" ] && sub=.
 run=$(grep -m1 -oE "\-run[ =]'?[A-Za-z0-9_^\$|/]+" "$demo" | sed -E "s/-run[ =]'?//")
